@@ -4,7 +4,9 @@ import (
 	"fmt"
 	"os"
 
-	_ "verif/checks"
+	"strconv"
+
+	"verif/checks"
 	"verif/internal/core"
 	"verif/internal/drv"
 )
@@ -40,6 +42,10 @@ func main() {
 		code = core.Replay(os.Args[2])
 	case "freeze":
 		code = core.Freeze(os.Args[2], os.Args[3])
+	case "raceworker":
+		lo, _ := strconv.ParseInt(os.Args[3], 10, 64)
+		hi, _ := strconv.ParseInt(os.Args[4], 10, 64)
+		checks.RaceWorker(os.Args[2], lo, hi)
 	case "list":
 		for _, id := range core.IDs() {
 			fmt.Println(id)
